@@ -38,6 +38,7 @@ for d in sorted(glob.glob(os.path.join(VERIF, "seeded", "*", "patch.diff"))):
 subprocess.run(["git", "-C", "/repo", "worktree", "remove", "--force", WT], capture_output=True)
 subprocess.run(["git", "-C", "/repo", "worktree", "prune"], capture_output=True)
 out = os.path.join(VERIF, "seeded", "RESULTS.json")
-old = json.load(open(out)) if os.path.exists(out) and only else {}
+old = json.load(open(out)) if os.path.exists(out) else {}   # entries of seeds not run this time are kept (another invocation may have written them meanwhile)
+old = {k: v for k, v in old.items() if os.path.isdir(os.path.join(VERIF, "seeded", k))}
 old.update(res)
 json.dump(old, open(out, "w"), indent=1)
